@@ -9,7 +9,8 @@ import (
 )
 
 func DecodeBase64(raw []byte) ([]byte, error) {
-	ret := make([]byte, base64x.StdEncoding.DecodedLen(len(raw)))
+	// the native decoder can emit 6 bits for every input byte, round the quantum count up
+	ret := make([]byte, base64x.StdEncoding.DecodedLen(len(raw)+3))
 	n, err := base64x.StdEncoding.Decode(ret, raw)
 	if err != nil {
 		return nil, err
